@@ -22,34 +22,35 @@ def chk(pid, text, note, technique, design, category=MC):
 
 COMMON_NOTE = ("Bounded scope: the token alphabets and lengths listed in the evidence "
                "(coverage.explorations); trees observed only through the public node API; "
-               "Go toolchain and the checker's own oracles trusted.")
+               "Go toolchain and the checker's own oracles trusted. A panic raised inside the library "
+               "during any execution is reported as a violation (kind library-panic).")
 
 chk("C02",
     "Every input over each declared token alphabet up to the stated length is parsed by the real code and every node's span is checked "
-    "against the statement (valid, inside Source and parent, siblings ordered and disjoint, root span shape, UTF-8 boundaries). "
+    "against the statement (valid, inside Source and parent, siblings ordered and disjoint, root span shape, UTF-8 boundaries); inputs written with LF are also parsed with CRLF and with CR line endings. "
     "Exhaustive within the bounds, so a pass is a coverage statement, not a sample.",
     COMMON_NOTE,
     "stateless explicit enumeration (DFS by replay) of all bounded inputs against the real parser; invariant oracle on every execution",
     "DESIGN.md section 6, C02")
 chk("C03",
-    "Every bounded input is parsed by the real code and a cover-count array over each root block's Source must be <=1 everywhere and ==1 on every letter, digit and non-ASCII byte.",
+    "Every bounded input is parsed by the real code and a cover-count array over each root block's Source must be <=1 everywhere and ==1 on every letter, digit and non-ASCII byte; only the text-carrying leaf kinds (Text, RawHTML, CharacterReference, SoftLineBreak, HardLineBreak, Indent) and list markers cover bytes, a childless container covers nothing; inputs written with LF are also parsed with CRLF and with CR line endings.",
     COMMON_NOTE,
     "stateless explicit enumeration of all bounded inputs against the real parser; cover-count invariant",
     "DESIGN.md section 6, C03")
 chk("C05",
-    "Every bounded input is parsed through Parse and through NextBlock+Extract+Rewrite and the resulting trees are checked against a table-driven transcription of the node grammar and accessor clauses of the statement.",
+    "Every bounded input is parsed through Parse and through NextBlock+Extract+Rewrite and the resulting trees are checked against a table-driven transcription of the node grammar and accessor clauses of the statement (no nil child anywhere); inputs written with LF are also parsed with CRLF and with CR line endings.",
     COMMON_NOTE,
     "stateless explicit enumeration of all bounded inputs x 2 entry points; grammar invariant on every node",
     "DESIGN.md section 6, C05")
 chk("C13",
-    "Every bounded input is parsed and, for every node, the source text selected by its span is matched against the per-kind shape predicate of the statement.",
+    "Every bounded input is parsed and, for every node, the source text selected by its span is matched against the per-kind shape predicate of the statement; inputs written with LF are also parsed with CRLF and with CR line endings.",
     COMMON_NOTE + " Backslash hard break: span with or without the line ending is accepted (the statement allows both readings).",
     "stateless explicit enumeration of all bounded inputs; per-kind span-shape predicate on every node",
     "DESIGN.md section 6, C13")
 
 chk("C01",
     "Every bounded input (and every member of the parametric families) is parsed through both entry points and the statement is checked literally: "
-    "ordering, gap blankness, Source == input range with NUL replaced, 1-based StartLine against an independent line counter, aliasing of the caller's buffer and non-modification of it and of its spare capacity.",
+    "ordering, gap blankness, Source == input range with NUL replaced, 1-based StartLine against an independent line counter, aliasing of the caller's buffer and non-modification of it and of its spare capacity; inputs written with LF are also parsed (Parse, one full read, one-byte reads) with CRLF and with CR line endings.",
     COMMON_NOTE + " Streaming is driven with one full read, one-byte reads, every single-cut schedule and data-with-EOF reads here (plus documents beyond one and two read chunks under 9 read-size patterns); arbitrary schedules and reader faults are C08.",
     "stateless explicit enumeration of all bounded inputs x 2 entry points against the real parser; tiling/offset/line oracle written from the statement",
     "DESIGN.md section 6, C01")
@@ -92,19 +93,19 @@ chk("C07",
     "DESIGN.md section 6, C07")
 
 chk("C10",
-    "Every bounded input is parsed and its tree rendered by the real renderer under 36 configurations (3 soft-break behaviours x IgnoreRaw x 6 FilterTag predicates) and with a nil ReferenceMap; destinations over a URI alphabet are enumerated in links, images, definitions and autolinks; each output must equal, byte for byte (modulo &lt; vs < when a tag filter is set), an independent recursive reading of the tree through the public accessors; determinism, the Render/AppendBlock join law, dst-prefix preservation, silence of reference definitions, RenderHTML == default renderer, and an unchanged tree dump and Source are checked on the same executions.",
-    "Bounded scope (alphabets, lengths in the evidence). The reference follows the library's documented escape sets and attribute order (calibration log in DESIGN.md); which '<' a filter escapes is left to C17.",
+    "Every bounded input is parsed and its tree rendered by the real renderer under 36 configurations (3 soft-break behaviours x IgnoreRaw x 6 FilterTag predicates) and with a nil ReferenceMap; destinations over a URI alphabet are enumerated in links, images, definitions and autolinks; each output must equal, byte for byte (generated tags exactly, also under a tag predicate; only the '<' characters of raw HTML may be written either way when a predicate is set), an independent recursive reading of the tree through the public accessors; determinism, the Render/AppendBlock join law, dst-prefix preservation, silence of reference definitions, RenderHTML == default renderer, and an unchanged tree dump and Source are checked on the same executions.",
+    "Bounded scope (alphabets, lengths in the evidence). The reference follows the library's documented escape sets and attribute order (calibration log in DESIGN.md, including what a generated end tag shows the predicate); which '<' of raw HTML a filter escapes is left to C17.",
     "stateless explicit enumeration of all bounded inputs x 36 renderer configurations; reference-model (direct tree reading) comparison on every execution",
     "DESIGN.md section 6, C10")
 
 chk("C17",
-    "Every bounded raw-HTML input (three alphabets - lexical, quoting/upper case, whole-tag tokens - with comments, CDATA, declarations, processing instructions, stray <, quotes, upper case) in three contexts, and every bounded inline input, is rendered by the real renderer without and with each of 5 predicates; the filtered output must be the unfiltered output with some '<' replaced by '&lt;' (two-pointer check), identical under a predicate that rejects nothing, and a WHATWG data-state tokenizer over it must emit no start tag whose name the predicate rejects (for the library's GFM predicate: the nine element names of the statement, all enumerated in 4 letter-case patterns x 10 tag shapes x 3 contexts).",
+    "Every bounded raw-HTML input (three alphabets - lexical, quoting/upper case, whole-tag tokens - with comments, CDATA, declarations, processing instructions, stray <, quotes, upper case) in three contexts, and every bounded inline input, is rendered by the real renderer without and with each of 5 predicates; the filtered output must be the unfiltered output with some '<' replaced by '&lt;' (two-pointer check), identical under a predicate that rejects nothing, and a WHATWG data-state tokenizer over it must emit no start tag whose name the predicate rejects (for the library's GFM predicate: the nine element names of the statement, all enumerated in 4 letter-case patterns x 10 tag shapes x 3 contexts, and in sequences of up to three equal-length allowed/rejected names in three letter-case patterns).",
     "Bounded scope (alphabets, lengths in the evidence). The tokenizer reference is self-tested before every run against x/net/html's tokenizer on 137k strings and on hand-written cases; no tree construction (data-state family only), as the property states.",
     "stateless explicit enumeration of all bounded inputs x 3 contexts x 5 predicates x 2 soft-break modes; reference HTML tokenizer as oracle over the real renderer's output",
     "DESIGN.md section 6, C17")
 
 chk("C11",
-    "Every string up to the stated length over the 5-symbol and the 8-symbol emphasis alphabets (non-ASCII punctuation, space and letter included) and, deeper, over the sub-alphabets {* _ a space} (11/13 symbols) and {* _ a} (13/16) that is a one-paragraph document (by the reference recognisers; others skipped and counted) is parsed and rendered by the real code and compared with an executable transcription of spec 6.2 flanking + the appendix's process-emphasis procedure without the openers_bottom optimisation.",
+    "Every string up to the stated length over the 5-symbol and the 8-symbol emphasis alphabets (non-ASCII punctuation, space and letter included) and, deeper, over the sub-alphabets {* _ a space} (11/13 symbols) and {* _ a} (13/16), and every sequence of 6/7 whole delimiter runs with built-in flanking context (openers, closers, both-flanking runs of * and _ of length 1-3), that is a one-paragraph document (by the reference recognisers; others skipped and counted) is parsed and rendered by the real code and compared with an executable transcription of spec 6.2 flanking + the appendix's process-emphasis procedure without the openers_bottom optimisation.",
     "Bounded scope (lengths in the evidence). The reference is self-tested on the spec's emphasis examples that use no other syntax before every run.",
     "exhaustive enumeration of all bounded delimiter-run strings; reference-model (spec procedure) comparison on the real parser's rendered output",
     "DESIGN.md section 6, C11")
@@ -122,14 +123,14 @@ chk("C12",
     "DESIGN.md section 6, C12")
 
 chk("C19",
-    "Part 1: the two packages are rebuilt with a generated overlay that calls a hook before every statement; under a cooperative scheduler exactly one harness thread runs and every hook call is a scheduling point at which the explorer may preempt. Package sync is replaced by a scheduler-aware stand-in in that build (blocked threads hand over, deadlocks and spin-waits are detected, pools are deterministic). For every multiset of 2 (thorough: 3) operations out of Parse of four documents, Render through one shared HTMLRenderer, Render through own renderers, Format and Walk on one shared tree, all schedules within the preemption bound are enumerated (bound 1 at statement granularity, bound 2 at first-function-entry granularity; thorough: bound 2 fine, bound 3 coarse, triples); each thread's result must equal its sequential result and the shared tree must be unchanged. "
+    "Part 1: the two packages are rebuilt with a generated overlay that calls a hook before every statement; under a cooperative scheduler exactly one harness thread runs and every hook call is a scheduling point at which the explorer may preempt. Package sync is replaced by a scheduler-aware stand-in in that build (blocked threads hand over, deadlocks and spin-waits are detected, pools are deterministic). For every multiset of 2 (thorough: 3) operations out of Parse of four documents, Render through one shared HTMLRenderer, Render through own renderers, Format and Walk on one shared tree, and streaming parse + Rewrite through one shared InlineParser value, all schedules within the preemption bound are enumerated (bound 1 at statement granularity, bound 2 at first-function-entry granularity; thorough: bound 2 fine, bound 3 coarse, triples); each thread's result must equal its sequential result and the shared tree must be unchanged. "
     "Part 2: the same thread bodies run free under the race detector in a separate -race build, one fresh process per operation pair (cold lazily-built state), plus the 652 spec examples parsed/rendered/formatted/walked on 2 and 8 goroutines and each tree worked on by four goroutines at once; any report or result differing from the sequential one is a violation.",
     "Statement granularity, small harness inputs; paths the harness does not execute and memory-model effects below statement granularity are outside part 1. The race clause relies on Go's race detector and is not a schedule enumeration (labelled as such in the evidence).",
     "stateless model checking of the real code under a controlled cooperative scheduler (preemption-bounded enumeration of thread interleavings, CHESS-style) + separate free-running race-detector pass",
     "DESIGN.md section 6, C19; section 2.3")
 
 chk("C06",
-    "The driver is a nondeterministic generator: it chooses an abstract document (block skeletons of <= 4 nodes; inline sequences from a 31-atom menu in 8 composition contexts; all escaped texts of <= 3 characters over letter/space/32 punctuation characters; code-block contents from a menu of fence-like lines; container chains to depth 5-6; trees of nested tight/loose lists; escaped link titles and destinations; numeric character references at their digit limits) and then every spelling the serializer is allowed (bullet and delimiter characters, marker padding 1-4, tab where a tab stop makes it equal, fence character/length, ATX closing sequence, setext underline length, quote marker variants, title quoting, destination form, hard-break spelling, escaping style, LF/CRLF) within a deviation bound; the real Parse+RenderHTML output must equal the document's denotation through ref.Norm. A guard that re-reads every line with the reference recognisers rejects (and counts) documents it cannot prove unambiguous.",
+    "The driver is a nondeterministic generator: it chooses an abstract document (block skeletons of <= 4 nodes; inline sequences from a 31-atom menu in 8 composition contexts; all escaped texts of <= 3 characters over letter/space/32 punctuation characters; code-block contents from a menu of fence-like lines; container chains to depth 5-6; trees of nested tight/loose lists; escaped link titles and destinations; numeric character references at their digit limits; raw tags, comments, processing instructions, declarations and CDATA sections over three raw-HTML alphabets, judged against a transcription of the grammar of spec 6.6) and then every spelling the serializer is allowed (bullet and delimiter characters, marker padding 1-4, tab where a tab stop makes it equal, fence character/length, ATX closing sequence, setext underline length, quote marker variants (also differing from line to line), title quoting, destination form, hard-break spelling, escaping style, LF/CRLF) within a deviation bound; the real Parse+RenderHTML output must equal the document's denotation through ref.Norm. A guard that re-reads every line with the reference recognisers rejects (and counts) documents it cannot prove unambiguous.",
     "Bounded scope (node/atom/deviation bounds in the evidence). The abstract model, denotation and serializer are the trusted base (Appendix A of DESIGN.md), self-tested against spec examples their canonical spellings coincide with. Laziness and most tab spellings are not generated.",
     "stateless model checking of a closed generator-serializer-parser-renderer system: exhaustive enumeration of abstract documents x deviation-bounded serializer spellings; reference denotation as oracle",
     "DESIGN.md section 6, C06; Appendix A")
